@@ -11,34 +11,44 @@ RULE = ("cells = (Host: an upstream with allow rules / an upstream whose skip-au
         "from ProxyDispatch.tla; every cell executed against the real sso-proxy with a recording upstream; distinct = abstract cells executed")
 
 
-def run(ctx):
+def leg(ctx):
+    """Model check, emit, execute and validate the dispatch cells; returns (summary, n cells, [(rule, record, text)], lines)."""
     quick = ctx.tier == "quick"
     V.leg_m(ctx, "ProxyDispatch", "ProxyDispatch.MC.cfg", workers=4)
-    cells, n = V.leg_g(ctx, "ProxyDispatchGen", "ProxyDispatch.Gen.cfg", "CELL", "cells.jsonl")
+    cells, n = V.leg_g(ctx, "ProxyDispatchGen", "ProxyDispatch.Gen.cfg", "CELL", "pdcells.jsonl")
     reps = 1 if quick else 8
     obs = os.path.join(ctx.scratch, "pd.ndjson")
     s = V.harness(ctx, ["pd-cells", "-in", cells, "-out", obs, "-seed", ctx.seed, "-reps", reps, "-workers", V.NCPU])
-    ctx.say("cells: %d emitted, %d executed; %s" % (n, s["executed"], json.dumps(s["extra"], sort_keys=True)))
-    viols, drifts, nl = V.leg_v(ctx, "ProxyDispatchTrace", "ProxyDispatchTrace.cfg", obs, strip=("conc",))
+    ctx.say("dispatch cells: %d emitted, %d executed; %s" % (n, s["executed"], json.dumps(s["extra"], sort_keys=True)))
+    viols, drifts, nl = V.leg_v(ctx, "ProxyDispatchTrace", "ProxyDispatchTrace.cfg", obs, strip=("conc",), label="V-dispatch")
+    found = []
     for lineno, rules in viols:
         rec = V.read_line(obs, lineno)
         for rule in rules:
             if rule.startswith("HARNESS_"):
                 raise V.Machinery("trace line %d: %s" % (lineno, rule))
-            V.report(ctx, rule, rec, "cell %s: %s %s (Host: %s) answered %s" % (
+            found.append((rule, rec, "cell %s: %s %s (Host: %s) answered %s" % (
                 json.dumps(rec["c"], sort_keys=True), rec["c"]["method"], rec["conc"]["target"], rec["conc"]["host"],
-                json.dumps(rec["out"], sort_keys=True)), {"kind": "cell", "record": rec})
-    # the cells are deterministic: a status outside the answering layer's set is a departure from the mechanism
+                json.dumps(rec["out"], sort_keys=True))))
+    # the cells are deterministic: a status or a forwarding other than the answering layer's is a departure from the mechanism
     for lineno, fields in drifts:
         rec = V.read_line(obs, lineno)
-        V.report(ctx, "X03_LayerStatus", rec, "cell %s: %s %s (Host: %s) answered %s, not what the layer the mechanism names does (status set / forwarding)" % (
+        found.append(("X03_LayerStatus", rec, "cell %s: %s %s (Host: %s) answered %s, not what the layer the mechanism names does (status set / forwarding)" % (
             json.dumps(rec["c"], sort_keys=True), rec["c"]["method"], rec["conc"]["target"], rec["conc"]["host"],
-            json.dumps(rec["out"], sort_keys=True)), {"kind": "cell", "record": rec})
+            json.dumps(rec["out"], sort_keys=True))))
     need = ["layer:health", "layer:misdirected", "layer:cleaned", "layer:robots", "layer:certs", "layer:favicon", "layer:auth",
             "layer:sign_out", "layer:callback", "layer:proxy", "reached", "status:302", "status:202"]
     missing = [k for k in need if s["extra"].get(k, 0) == 0]
-    if missing and not ctx.violations:
-        raise V.Machinery("vacuous run: never observed %s" % missing)
+    if missing and not found and not ctx.violations:
+        raise V.Machinery("vacuous dispatch leg: never observed %s" % missing)
+    return s, n, found, nl
+
+
+def run(ctx):
+    s, n, found, nl = leg(ctx)
+    for rule, rec, text in found:
+        V.report(ctx, rule, rec, text, {"kind": "cell", "record": rec})
+    reps = 1 if ctx.tier == "quick" else 8
     ctx.cov["evaluations"] = nl
     ctx.cov["distinct_nontrivial"] = s["distinct"]
     ctx.cov["exhaustive"] = s["distinct"] == n
